@@ -1206,6 +1206,10 @@ class TransformSet:
         self._set_base(fn)
 
     def _set_base(self, fn):
+        # A function that was already tooled (e.g. with tooled.inplace) is
+        # fully instrumented and overlays rely on that: probes must not
+        # narrow its instrumentation to their own captures.
+        self.base_is_tooled = hasattr(fn, "__ptera_info__")
         self.base_function = types.FunctionType(
             code=fn.__code__,
             globals=fn.__globals__,
@@ -1264,7 +1268,7 @@ class StackedTransforms:
             self.captures[cap] -= 1
 
     def get(self):
-        if self.instrument_count == 0:
+        if self.instrument_count == 0 or self.tset.base_is_tooled:
             caps = None
         else:
             caps = [cap for cap, count in self.captures.items() if count > 0]
